@@ -70,6 +70,18 @@ CLAIMED = {
              "(composition, the prompt, undo afterwards) by the correspondence and the reference-search oracle.",
         note=TTY_NOTE + "Default history back end.",
         technique="Coq proof: symbolic execution of the search branch per key + C09 nearest-match theorems; extracted-model differential check through a pty + reference-search oracle"),
+    "C14": dict(
+        text="Theorems over the completion loop of the editor model, for every completer answer (start offset, candidates), text "
+             "and state: round i of circular completion rewrites exactly the span between the reported start and the cursor with "
+             "candidate i -- text before and after intact, cursor after the candidate -- and round n shows the original text and "
+             "cursor; Tab moves to (i+1) mod (n+1), Shift-Tab back (wrapping); Escape / Ctrl-G restores the original text and "
+             "cursor exactly and cuts the undo stack back to its mark (with C05: the changeset from before); any other key keeps "
+             "the shown candidate, closes the undo group and is executed by the main loop; one Undo after an accepted completion "
+             "pops exactly that group and yields the pre-completion text (a valid script determines its text); in list mode the "
+             "inserted text is a prefix of every candidate and the longest such. PARTIAL: whole completion sessions, list mode's "
+             "'only when it extends the span' rule and the listing by the correspondence and the recomputing oracle.",
+        note=TTY_NOTE,
+        technique="Coq proof: symbolic execution of the completion branch per key; induction for LCP and for uniqueness of the script's text; extracted-model differential check through a pty + recomputing oracle"),
     "C13": dict(
         text="Theorems for every validator, editor state and text: executing Enter / C-j / C-m says Submit only if the verdict on "
              "the current text is Valid, and then text and cursor are exactly those validated; a Valid verdict does submit; "
